@@ -2,7 +2,7 @@
    This file contains only the property theorems; each is closed by an exact/apply of a
    lemma proved under GraphAlg/ and followed by Print Assumptions (+ non-vacuity Examples). *)
 From Coq Require Import List NArith Permutation.
-From HV Require Import GraphAlg.Model GraphAlg.PUf GraphAlg.PTopo GraphAlg.PSm GraphAlg.PSmCyc GraphAlg.Check GraphAlg.PCheck.
+From HV Require Import GraphAlg.Model GraphAlg.PUf GraphAlg.PTopo GraphAlg.PSm GraphAlg.PSmCyc GraphAlg.PSmMerge GraphAlg.Check GraphAlg.PCheck.
 Import ListNotations.
 Open Scope N_scope.
 
@@ -152,12 +152,39 @@ Theorem C17_sm_try_merge_cycle_refused : forall ks np en s f u0 v0,
 Proof. intros ks np en s f u0 v0 I. exact (sm_try_merge_cycle_refused ks np en s f I u0 v0). Qed.
 Print Assumptions C17_sm_try_merge_cycle_refused.
 
+(* a TRUE answer is safe (decision correctness of successful merges): either the two nodes were in
+   one group already, or there was no enemy conflict and no cycle through the merged group, and
+   the merged partition [relabel f (f u) (f v)] again has an acyclic quotient graph and no enemy
+   pair inside a group *)
+Theorem C17_sm_try_merge_true_safe : forall ks np en s f u0 v0 s',
+  SMInv ks np en s f -> In u0 ks -> In v0 ks ->
+  sm_try_merge s u0 v0 = ROk (s', true) ->
+  f u0 = f v0 \/
+  (~ enemy_conflict f en u0 v0 /\ ~ would_cycle f np ks (f u0) (f v0) /\
+   qacyclic (relabel f (f u0) (f v0)) np ks /\
+   forall x y, In (x, y) en -> relabel f (f u0) (f v0) x <> relabel f (f u0) (f v0) y).
+Proof. exact sm_try_merge_true_safe. Qed.
+Print Assumptions C17_sm_try_merge_true_safe.
+
 (* FULL STATEMENT of the remaining try_merge clause of C17 (kept visible):
-     preservation:  SMInv s f -> sm_try_merge s u v = ROk (s', b) -> exists f', SMInv s' f'
-                    (and never RPanic / RFuel on keys). *)
+     preservation: every merge attempt on keys returns ROk (never RPanic / RFuel) and the new
+     state satisfies SMInv for some representative function. *)
 Definition C17_sm_try_merge_preserves_stmt : Prop :=
   forall ks np en s f u v, SMInv ks np en s f -> In u ks -> In v ks ->
     exists s' b f', sm_try_merge s u v = ROk (s', b) /\ SMInv ks np en s' f'.
+
+(* PROVED: it holds on every path except the representation refinement of a successful merge;
+   precisely, it follows from the single obligation [merge_phase_refines] (GraphAlg/PSmMerge.v:
+   steps 2-3 of try_merge, on two distinct representatives that passed the enemy test and the
+   cycle check, do not panic and produce a state satisfying SMInv for [relabel f u v]).
+   MISSING: a proof of [merge_phase_refines] itself (window re-sort via topo_sort on the window
+   quotient, rebuild / reindex, predecessor / length / enemy map bookkeeping).  That refinement is
+   covered only by the correspondence check (SMInv_b + partition bookkeeping on every
+   implementation output, model/implementation agreement on subgraphs() and find()). *)
+Theorem C17_sm_try_merge_preserves_modulo_partial :
+  merge_phase_refines -> C17_sm_try_merge_preserves_stmt.
+Proof. exact sm_try_merge_preserves_modulo. Qed.
+Print Assumptions C17_sm_try_merge_preserves_modulo_partial.
 
 (* PROVED PART (soundness of refusals + the unmerged branches preserve the invariant):
    a false answer implies distinct groups and an enemy conflict or a cycle through the merged
